@@ -325,7 +325,7 @@ VARIANTS = [
     Variant("sentinel-no-bump", TY, replace_once("        if is_new or value is _EMIT_SENTINEL:", "        if is_new:"), {"C17.R4"}),
     Variant("no-newness-tracking", TY, replace_once("        if is_new or value is _EMIT_SENTINEL:", "        if value is _EMIT_SENTINEL:"), {"C17.R4"}),
     Variant("newness-after-store", TY, replace_once("        is_new = name not in self.values\n\n        self.values[name] = value\n", "        self.values[name] = value\n        is_new = name not in self.values\n"), {"C17.R4"}),
-    Variant("twin-bump-helper", TY, replace_once("        if is_new or value is _EMIT_SENTINEL:\n            self.versions[name] = self.versions.get(name, 0) + 1\n        else:", "        always = is_new or value is _EMIT_SENTINEL\n        if always:\n            self.versions[name] = self.versions.get(name, 0) + 1\n        else:"), set()),
+    Variant("twin-bump-helper", TY, replace_once("        if is_new or value is _EMIT_SENTINEL:\n            self.versions[name] = self.versions.get(name, 0) + 1\n        elif old_value is value:", "        always = is_new or value is _EMIT_SENTINEL\n        if always:\n            self.versions[name] = self.versions.get(name, 0) + 1\n        elif old_value is value:"), set()),
     Variant("cache-key-without-emit-names", "src/hypergraph/runners/_shared/caching.py", replace_once(":{node.outputs!r}:", ":"), {"C17.R5"}),
     Variant("twin-cache-key-emit-names-separately", "src/hypergraph/runners/_shared/caching.py", replace_once(":{node.outputs!r}:", ":{node.outputs[len(node.data_outputs):]!r}:"), set()),
     Variant("consumed-signal-counts-fresh", HP, replace_once("    last_exec = state.node_executions.get(node.name)\n\n    for name in node.wait_for:\n        if name not in state.values:\n            return False\n        # On re-execution, check freshness\n        if last_exec is not None:\n            current_version = state.get_version(name)\n            consumed_version = last_exec.wait_for_versions.get(name, 0)\n            if current_version <= consumed_version:\n                return False\n", "    last_exec = state.node_executions.get(node.name)\n    consumed = last_exec.wait_for_versions if last_exec is not None else {}\n\n    for name in node.wait_for:\n        if name not in state.values:\n            return False\n        if state.get_version(name) < consumed.get(name, 0):\n            return False\n"), {"C17.R1"}),
